@@ -15,8 +15,8 @@
 void contract_vf_string_ctor_copy(vf_string *s, const vf_string *o)
 __CPROVER_requires(__CPROVER_rw_ok(s, sizeof(*s)) && __CPROVER_r_ok(o, sizeof(*o)) && VF_STR_OK(*o))
 __CPROVER_assigns(s->data, s->size)
-__CPROVER_ensures(s->size == o->size && __CPROVER_is_fresh(s->data, s->size + 1))
-__CPROVER_ensures(vf_gk <= s->size ==> s->data[vf_gk] == o->data[vf_gk]);
+__CPROVER_ensures(s->size == o->size && __CPROVER_is_fresh(s->data, s->size + 1) && s->data[s->size] == 0)
+__CPROVER_ensures(vf_gc <= s->size ==> s->data[vf_gc] == o->data[vf_gc]);
 
 /* string() */
 void contract_vf_string_ctor(vf_string *s)
@@ -124,5 +124,48 @@ __CPROVER_assigns(v->data, v->size)
 __CPROVER_frees(v->data)
 __CPROVER_ensures(v->size == o->size && __CPROVER_is_fresh(v->data, VF_VEC_BYTES(*o, float)))
 __CPROVER_ensures(vf_gv < o->size ==> VF_FBITS(v->data[vf_gv]) == VF_FBITS(o->data[vf_gv]));
+
+
+/* ---------------------------------------------------------------- input stream (weak precondition: any state) */
+#define VF_ISTREAM_OK(f) (__CPROVER_rw_ok(f, sizeof(*(f))) && (f)->len <= VF_MAXFILE && __CPROVER_r_ok((f)->buf, (f)->len ? (f)->len : 1) && \
+                          (f)->pos <= (long)VF_MAXFILE + 0x100000000L)
+#define VF_AVAIL(f) (((f)->is_open && (f)->pos >= 0 && (size_t)(f)->pos < (f)->len) ? (f)->len - (size_t)(f)->pos : (size_t)0)
+/* bytes available at the *entry* position (read() changes neither len nor is_open; __CPROVER_old cannot hold a ?:) */
+#define VF_AVAIL_OLD(f) (((f)->is_open && __CPROVER_old((f)->pos) >= 0 && (size_t)__CPROVER_old((f)->pos) < (f)->len) ? (f)->len - (size_t)__CPROVER_old((f)->pos) : (size_t)0)
+
+/* std::string(const char*): the caller-side fact "c[vf_gn] == 0 and c is readable up to there" is supplied through the
+ * ghost vf_gn (harness: vf_gn == the length handed to readString) */
+void contract_vf_string_ctor_cstr(vf_string *s, const char *c)
+__CPROVER_requires(__CPROVER_rw_ok(s, sizeof(*s)) && vf_gn <= VF_MAXSTR && __CPROVER_r_ok(c, vf_gn + 1) && c[vf_gn] == 0)
+__CPROVER_assigns(s->data, s->size)
+__CPROVER_ensures(s->size <= vf_gn && __CPROVER_is_fresh(s->data, s->size + 1) && s->data[s->size] == 0 && c[s->size] == 0)
+__CPROVER_ensures(vf_gc < s->size ==> (s->data[vf_gc] == c[vf_gc] && c[vf_gc] != 0));
+
+void contract_vf_string_assign(vf_string *s, const vf_string *o)
+__CPROVER_requires(s != o && __CPROVER_rw_ok(s, sizeof(*s)) && __CPROVER_r_ok(o, sizeof(*o)) && VF_STR_OK(*o))
+__CPROVER_assigns(s->data, s->size)
+__CPROVER_frees(s->data)
+__CPROVER_ensures(s->size == o->size && __CPROVER_is_fresh(s->data, s->size + 1) && s->data[s->size] == 0)
+__CPROVER_ensures(vf_gc < s->size ==> s->data[vf_gc] == o->data[vf_gc]);
+
+
+/* istream::read (transcribed from [istream.unformatted]); content stated at the ghost character index */
+void contract_vf_stream_read(vf_stream *f, char *dst, long n)
+__CPROVER_requires(VF_ISTREAM_OK(f) && n >= 0 && n <= (long)VF_MAXSTR && __CPROVER_w_ok(dst, (size_t)n))
+__CPROVER_assigns(f->pos, f->eof, f->fail, f->work, __CPROVER_object_upto(dst, (size_t)n))
+__CPROVER_ensures((__CPROVER_old(f->eof) || __CPROVER_old(f->fail)) ==>
+                  (f->fail && f->eof == __CPROVER_old(f->eof) && f->pos == __CPROVER_old(f->pos) && f->work == __CPROVER_old(f->work)))
+__CPROVER_ensures((!__CPROVER_old(f->eof) && !__CPROVER_old(f->fail)) ==>
+                  (f->work == __CPROVER_old(f->work) + (size_t)n &&
+                   f->pos == __CPROVER_old(f->pos) + (long)((size_t)n < VF_AVAIL_OLD(f) ? (size_t)n : VF_AVAIL_OLD(f)) &&
+                   (VF_AVAIL_OLD(f) < (size_t)n ? (f->eof && f->fail) : (!f->eof && !f->fail))))
+__CPROVER_ensures((!__CPROVER_old(f->eof) && !__CPROVER_old(f->fail) && vf_gc < (size_t)n && vf_gc < VF_AVAIL_OLD(f)) ==>
+                  (unsigned char)dst[vf_gc] == f->buf[(size_t)__CPROVER_old(f->pos) + vf_gc])
+/* the first four bytes explicitly (the fixed-width readers need them all at once) */
+__CPROVER_ensures((!__CPROVER_old(f->eof) && !__CPROVER_old(f->fail)) ==>
+                  ((n > 0 && VF_AVAIL_OLD(f) > 0 ==> (unsigned char)dst[0] == f->buf[(size_t)__CPROVER_old(f->pos)]) &&
+                   (n > 1 && VF_AVAIL_OLD(f) > 1 ==> (unsigned char)dst[1] == f->buf[(size_t)__CPROVER_old(f->pos) + 1]) &&
+                   (n > 2 && VF_AVAIL_OLD(f) > 2 ==> (unsigned char)dst[2] == f->buf[(size_t)__CPROVER_old(f->pos) + 2]) &&
+                   (n > 3 && VF_AVAIL_OLD(f) > 3 ==> (unsigned char)dst[3] == f->buf[(size_t)__CPROVER_old(f->pos) + 3])));
 
 #endif
